@@ -32,7 +32,7 @@ CHECKS["C04"] = dict(
 SOCK_NOTE = "Trusted: kernel, translator, extraction, driver, harness. The World model (coq/Model/World.v) is hand-written from src/{backend,req,rep,dealer,router,push,pull,pub,sub,xpub,fair_queue}.rs and tied to the code by running identical scenarios (seeded generator + targeted grids) on the real sockets over scripted in-memory connections and on the extracted model, comparing every API result and every byte written per connection; scc::HashMap, SegQueue, Mutex, FramedWrite are modelled (map / FIFO / atomic sections / append). Distinct peer identities are assumed by the model."
 CHECKS["C07"] = dict(
     technique="Coq proof (algebraic laws of the envelope functions over all frame lists) + differential correspondence of real REQ/REP sockets against the extracted model + property oracle on wire bytes",
-    text="Theorems in coq/Properties/C07.v: REQ adds exactly one empty delimiter and strips exactly that; REP splits at the FIRST empty frame for every routing prefix and payload (empty frames inside the payload included), its reply retraces the envelope, a request with nothing after the delimiter is refused, never zero frames; end-to-end law through identity-adding hops. The real sockets are driven over the payload x prefix grid and compared with the model and with an oracle that recomputes the expected wire bytes from the property text.",
+    text="Theorems in coq/Properties/C07.v: REQ adds exactly one empty delimiter and strips exactly that; REP splits at the FIRST empty frame for every routing prefix and payload (empty frames inside the payload included), its reply retraces the envelope, a request with nothing after the delimiter is refused, never zero frames; end-to-end law through identity-adding hops. The real sockets are driven over the payload x prefix grid and compared with the model and with an oracle that recomputes the expected wire bytes from the property text. Over the wire (composed with the codec and the fair queue): REQ's request bytes, in any chunking and behind any routing identities, are served by REP with exactly the payload and a reply that retraces the envelope; the reply's bytes in any chunking are returned by REQ as exactly the payload, after which the next request goes out.",
     note=SOCK_NOTE, design="4 C07")
 CHECKS["C08"] = dict(
     technique="Coq proof (decision rules and alternation lemmas on the World step function) + exhaustive {send,recv} sequences to length 6 on real REQ and REP against a two-state reference machine and the extracted model",
@@ -40,17 +40,17 @@ CHECKS["C08"] = dict(
     note=SOCK_NOTE, design="4 C08")
 CHECKS["C09"] = dict(
     technique="Coq proof (labelling and exact-routing lemmas with frame conditions on all other connections) + seeded scenarios on a real ROUTER with per-connection ground truth, compared with the extracted model",
-    text="Theorems in coq/Properties/C09.v: what the fair queue yields from connection k is returned prefixed with k's registered identity and otherwise unmodified; a send is written, minus its first frame, to exactly the addressed registered peer with every other wire and the peer table unchanged; unknown, empty or over-long identities fail and write nothing. Real ROUTER with 1-4 peers, announced/auto identities, segmented arrivals, departed peers.",
+    text="Theorems in coq/Properties/C09.v: what the fair queue yields from connection k is returned prefixed with k's registered identity and otherwise unmodified; a send is written, minus its first frame, to exactly the addressed registered peer with every other wire and the peer table unchanged; unknown, empty or over-long identities fail and write nothing. Real ROUTER with 1-4 peers, announced/auto identities, segmented arrivals, departed peers. Over whole histories (any number of peers, any interleaving of arrivals in any chunking, closes, recv calls): every returned message carries the label of an attached connection, the messages labelled k are a prefix of k's stream in order, and complete whenever a recv parks.",
     note=SOCK_NOTE, design="4 C09")
 CHECKS["C10"] = dict(
     technique="Coq proof (rotation lemma by induction over sends, frame conditions) + exhaustive join-time grids and seeded back-pressure scenarios on real PUSH/DEALER/REQ with wire snapshots at send return",
-    text="Theorems in coq/Properties/C10.v: a successful round-robin send writes the whole message to the head of the rotation only and moves it to the tail; with a duplicate-free rotation of live peers n consecutive sends reach the n members in order (strict rotation) and restore the queue; a late joiner enters at the tail; no live peer => ReturnToSender with the message and nothing written. Real sockets: every join order/time for <=3 peers x 6 sends, writers accepting k bytes per call or answering Pending first. Known finding rr-duplicate-id-after-rejoin is reported as such.",
+    text="Theorems in coq/Properties/C10.v: a successful round-robin send writes the whole message to the head of the rotation only and moves it to the tail; with a duplicate-free rotation of live peers n consecutive sends reach the n members in order (strict rotation) and restore the queue; a late joiner enters at the tail; no live peer => ReturnToSender with the message and nothing written. Real sockets: every join order/time for <=3 peers x 6 sends, writers accepting k bytes per call or answering Pending first. Known finding rr-duplicate-id-after-rejoin is reported as such. Closed form: with n peers message number i goes whole to peer i mod n in joining order.",
     note=SOCK_NOTE, design="4 C10")
 
 FQ_NOTE = "Trusted: kernel, translator, extraction, driver, harness. Granularity: a parking_lot::Mutex critical section is one atomic step; poll_next's two critical sections and the stream poll between them are separate steps, any environment step may be scheduled in between (coq/Model/FairQueue.v). The model is replayed label by label on the real FairQueue through scripted streams whose poll_next executes the in-window events, so no threads are needed. BinaryHeap/HashMap are modelled as sorted list / key set; AtomicUsize wrap-around ignored; the executor re-polling a woken task is tokio's."
 CHECKS["C05"] = dict(
     technique="Coq proof (invariant over all label interleavings of the fair-queue transition system; composition with the C02 stream theorems) + exhaustive/random label schedules replayed on the real FairQueue and random scenarios on the six receiving socket types",
-    text="Theorems in coq/Properties/C05.v: for every interleaving of the receiver's critical sections with wakes, inserts, removes and arrivals - no assumption on the environment - delivered ++ in-flight ++ remaining = arrived per stream (exactly once, in order), no registered stream is lost, and per connection the items are the declarative reading of its byte stream for every chunking. All depth-5/6 schedules for 2 streams incl. events inside the poll window and seeded deep schedules run on the real queue; the six receiving sockets are run on segmented multi-peer scenarios against the model and a per-connection order oracle.",
+    text="Theorems in coq/Properties/C05.v: for every interleaving of the receiver's critical sections with wakes, inserts, removes and arrivals - no assumption on the environment - delivered ++ in-flight ++ remaining = arrived per stream (exactly once, in order), no registered stream is lost, and per connection the items are the declarative reading of its byte stream for every chunking. All depth-5/6 schedules for 2 streams incl. events inside the poll window and seeded deep schedules run on the real queue; the six receiving sockets are run on segmented multi-peer scenarios against the model and a per-connection order oracle. Whole-socket model (decoder + connections + fair queue + disconnect on error, six socket types): for every interleaving of arrivals in any chunking, closes and recv calls the items handed out for a connection are a prefix of the declarative reading of its stream, and complete whenever a recv parks; end to end, what PUSH/DEALER writes for any message list is read back by PULL/DEALER/ROUTER as exactly those messages for any chunking.",
     note=FQ_NOTE, design="4 C05")
 CHECKS["C06"] = dict(
     technique="Coq proof (claim invariant and parked invariant over all interleavings; one-claim and potential argument for the rotation bound under the waker contract) + schedules with a counting waker and an executor that re-polls only when woken, on the real FairQueue",
@@ -58,7 +58,7 @@ CHECKS["C06"] = dict(
     note=FQ_NOTE + " The fairness bound assumes the registration contract (tokio's I/O driver: a registration is consumed by its wake); safety and no-lost-wake-up assume nothing.", design="4 C06")
 CHECKS["C11"] = dict(
     technique="Coq proof (refinement of the subscription list to a reference prefix multiset; iff-characterisation of matching; exactly-once publish lemma) + exhaustive short histories on real PUB/XPUB against a reference oracle and the extracted model",
-    text="Theorems in coq/Properties/C11.v: for every per-subscriber history the kept list has the reference multiset's multiplicities (subscribe +1, unsubscribe -1 saturating), a message is matched iff some active subscription is a byte-prefix of its first frame, malformed messages change nothing, one publish writes to a matching subscriber exactly once and to nobody else. All histories of length <=3/4 over 12 symbols x 6 first frames on real PUB and XPUB, plus 2-3 subscriber random histories; XPUB recv verbatim/in order.",
+    text="Theorems in coq/Properties/C11.v: for every per-subscriber history the kept list has the reference multiset's multiplicities (subscribe +1, unsubscribe -1 saturating), a message is matched iff some active subscription is a byte-prefix of its first frame, malformed messages change nothing, one publish writes to a matching subscriber exactly once and to nobody else. All histories of length <=3/4 over 12 symbols x 6 first frames on real PUB and XPUB, plus 2-3 subscriber random histories; XPUB recv verbatim/in order. Over the wire: the subscription messages a SUB socket writes for any subscribe/unsubscribe history, in any chunking, make PUB (and XPUB, whose recv also hands them over in order) deliver a message iff a CURRENT subscription is a prefix of its first frame.",
     note=SOCK_NOTE + " PUB applies subscriptions in a spawned task: compared at quiescence only.", design="4 C11")
 CHECKS["C12"] = dict(
     technique="Coq proof (invariants of try_send over every transport answer sequence: stream well-formedness, buffer bound, accepting case) + the real try_send replaying the same answer scripts + real PUB/XPUB with a stalled/slow/broken subscriber",
@@ -75,11 +75,11 @@ CHECKS["C13"] = dict(
     note=SOCK_NOTE + " The accept-side interleaving (join suspended between reading the set and registering) is outside the sequential model: exercised on the real code by stalling the joiner's writer, reported as KNOWN-FINDING sub-accept-race.", design="4 C13")
 CHECKS["C15"] = dict(
     technique="Coq proof (loop invariant of the proxy for every sequence of select! branch choices, over the World models of both sockets) + the real proxy() between real sockets on scripted connections compared with the extracted model and a verbatim-forwarding oracle",
-    text="Theorems in coq/Properties/C15.v: for every choice sequence, everything received on one side has been sent on the other as the same list of messages (frames, order, multiplicity), at most the message whose send failed is missing when an error ends the proxy; the capture socket is sent a copy of every message taken. The losing select! branch consumes nothing (C14). Real proxy() over ROUTER/DEALER and DEALER/DEALER with 1-3 clients and workers, capture, both sides queued before the proxy runs, segmented feeds.",
+    text="Theorems in coq/Properties/C15.v: for every choice sequence, everything received on one side has been sent on the other as the same list of messages (frames, order, multiplicity), at most the message whose send failed is missing when an error ends the proxy; the capture socket is sent a copy of every message taken. The losing select! branch consumes nothing (C14). Real proxy() over ROUTER/DEALER and DEALER/DEALER with 1-3 clients and workers, capture, both sides queued before the proxy runs, segmented feeds. Chain model (n REQ clients - ROUTER/DEALER proxy - m REP workers, every schedule): each client gets exactly the replies to its own requests, in order; nothing is lost; at quiescence every request was served once. The real chain (real sockets, TCP/IPC, optional capture) is run against it.",
     note=SOCK_NOTE + " futures::select! picks pseudo-randomly among ready branches: modelled as arbitrary choice; the capture wire is compared as a multiset, per-direction wires exactly.", design="4 C15")
 CHECKS["C16"] = dict(
     technique="Coq proof (frame lemmas, disconnect lemmas on the World model, re-read structure of every failure path) + every cut position x fault kind x socket type on real sockets with other live peers",
-    text="Theorems in coq/Properties/C16.v: events on one connection leave all others untouched; a stream error surfaced by recv disconnects exactly that peer and cannot be yielded again (only registered streams yield); a disconnected peer is in no table, both halves released, nobody else touched; no later round-robin or routed send reaches it. Real sockets: nine types x every byte offset of greeting+READY+messages x {EOF, reset, write error} x 0-2 other peers: others served, at most one error, halves released, nothing routed afterwards. Known finding clean-eof-keeps-write-half is listed and reported as such.",
+    text="Theorems in coq/Properties/C16.v: events on one connection leave all others untouched; a stream error surfaced by recv disconnects exactly that peer and cannot be yielded again (only registered streams yield); a disconnected peer is in no table, both halves released, nobody else touched; no later round-robin or routed send reaches it. Real sockets: nine types x every byte offset of greeting+READY+messages x {EOF, reset, write error} x 0-2 other peers: others served, at most one error, halves released, nothing routed afterwards. Known finding clean-eof-keeps-write-half is listed and reported as such. Over whole histories of the socket model: at most one error per connection and nothing after it; after it the connection is not a peer, not a stream, both halves dropped; connections that did not fail and were not closed keep everything; every connection's traffic is delivered completely whatever happens to the others. The listed finding is exhibited as a model-level witness.",
     note=SOCK_NOTE + " Descriptor release is the OS's: the model says 'both halves dropped', the harness observes the drop of the scripted halves. PUB/XPUB see a write error only once the buffer reaches the high-water mark (try_send ignores the flush result).", design="4 C16")
 
 RT_NOTE = "Trusted: kernel, translator, extraction, driver, harness. PARTIAL: the theorems are about the library's bookkeeping / ownership / task structure; what the OS answers to bind, that tokio runs every runnable task, that a cancelled oneshot is observed, that dropping the last owner closes a descriptor, and timing ('shortly afterwards' = 600 ms grace) are observed on the real runtime by harness/src/rt.rs (multi-thread tokio, real TCP v4/v6/localhost and IPC, raw clients), never proved."
